@@ -62,7 +62,9 @@ IsF32 == In.ft = "f32"
 S5   == 100000
 
 \* allowances.  f64: quantisation of the log only.  f32: plus single-precision rounding of values <= ~100
-Eps  == IF IsF32 THEN 20 ELSE 0            \* arg-min comparisons (units 10^-5); 0 = exact
+\* arg-min comparisons (units 10^-5); 0 = exact.  lp3: cubes of distances with denominators up to 125^3 can
+\* differ by less than the rounding of a cube root in f64, so differences below 2 * 10^-5 count as ties
+Eps  == IF IsF32 THEN 20 ELSE IF In.metric = "lp3" THEN 2 ELSE 0
 SlC  == IF IsF32 THEN 3 ELSE 1             \* centroid coordinates
 SlT  == IF IsF32 THEN 5 ELSE 1             \* one reduced distance
 InSl == IF IsF32 THEN 6 * TN + 2 ELSE 2 * TN + 2   \* inertia * n against the rounded-down cost
@@ -99,14 +101,36 @@ LayoutOk(ev) ==
      /\ (lay = "row2") => ((rows => st[1] = 2 * TF) /\ (cols => st[2] = 1))
      /\ (lay = "col2") => ((rows => st[1] = 2 * TF) /\ (cols => st[2] = 2))
 
+\* Minkowski metrics LpDist(p): linfa compares and returns the distance (sum |d|^p)^(1/p).  The harness logs
+\* next to every returned distance v (field tr / qtr) its p-th power v^p (trp / qtrp, p = 1 for all other
+\* metrics), which is the quantity the specification can evaluate exactly.  PowBind ties the two fields
+\* together (coarsely for p > 1: w = v rounded down to 10^-2, (w-1)^p <= v^p <= (w+2)^p).
+PowP == CASE In.metric = "lp2" -> 2 [] In.metric = "lp3" -> 3 [] OTHER -> 1
+PowBind(tr, trp) ==
+  \A i \in 1..Len(tr) :
+    LET w  == tr[i] \div 1000
+        lo == IF w >= 1 THEN w - 1 ELSE 0
+        hi == w + 2
+    IN
+    CASE PowP = 1 -> trp[i] = tr[i]
+      [] PowP = 2 -> /\ tr[i] >= 0 /\ tr[i] < 3000000 /\ trp[i] >= 0
+                     /\ lo * lo - 2 <= trp[i] \div 10 /\ trp[i] \div 10 <= hi * hi + 2
+      [] PowP = 3 -> /\ tr[i] >= 0 /\ tr[i] < 1200000 /\ trp[i] >= 0 /\ trp[i] < 200000000
+                     /\ lo * lo * lo - 20 <= trp[i] * 10 /\ trp[i] * 10 <= hi * hi * hi + 20
+\* inertia = mean of the returned distances: for p > 1 the sum of the (bound) logged distances of the training
+\* points stands in for the sum of p-th roots
+RootMetric == PowP > 1
+SumTr(ev) == KSum(ev.tr)
+
 ShapeOk(ev) ==
   /\ ev.ok /\ ev.num /\ ev.fin
   /\ LayoutOk(ev)
   /\ ev.nrows = TK /\ ev.ncols = TF
   /\ Len(ev.cen) = TK /\ \A j \in 1..TK : Len(ev.cen[j]) = TF
   /\ Len(ev.counts) = TK
-  /\ Len(ev.lab) = TN /\ Len(ev.tr) = TN
-  /\ Len(ev.qlab) = Len(QS) /\ Len(ev.qlab1) = Len(QS) /\ Len(ev.qtr) = Len(QS)
+  /\ Len(ev.lab) = TN /\ Len(ev.tr) = TN /\ Len(ev.trp) = TN
+  /\ Len(ev.qlab) = Len(QS) /\ Len(ev.qlab1) = Len(QS) /\ Len(ev.qtr) = Len(QS) /\ Len(ev.qtrp) = Len(QS)
+  /\ PowBind(ev.tr, ev.trp) /\ PowBind(ev.qtr, ev.qtrp)
   /\ \A i \in 1..TN : ev.lab[i] \in 0..(TK - 1)
   /\ \A i \in 1..Len(QS) : ev.qlab[i] \in 0..(TK - 1) /\ ev.qlab1[i] \in 0..(TK - 1)
   /\ ev.inertia >= 0 /\ ev.inertia <= 400 * S5
@@ -138,12 +162,12 @@ InertiaOk(ev, cost) == KAbs(ev.inertia * TN - cost) <= InSl
 ReportStrict(ev, tab) ==
   /\ CountsWellFormed(ev)
   /\ \E B \in AsgsT(tab) : Counts(B, TK) = CountsVec(ev)
-  /\ InertiaOk(ev, CostT(tab))
+  /\ InertiaOk(ev, IF RootMetric THEN SumTr(ev) ELSE CostT(tab))
 \* what the pinned code reports: assignment AA made for the centroids before the last update (table tabOld)
 ReportLag(ev, AA, tabOld) ==
   /\ CountsWellFormed(ev)
   /\ Counts(AA, TK) = CountsVec(ev)
-  /\ InertiaOk(ev, CostT(tabOld))
+  /\ ~RootMetric /\ InertiaOk(ev, CostT(tabOld))
 
 \* l2: the step does not increase the cost; the transform-sum logged for the returned centroids is
 \* that cost, and does not increase from one budget to the next
@@ -164,7 +188,7 @@ Explains(ev, tp, tq, tabOld) ==
   /\ BoxOk(ev)
   /\ LabelsOk(ev.lab, tp)
   /\ LabelsOk(ev.qlab, tq) /\ LabelsOk(ev.qlab1, tq)
-  /\ TransOk(ev.tr, tp) /\ TransOk(ev.qtr, tq)
+  /\ TransOk(ev.trp, tp) /\ TransOk(ev.qtrp, tq)
   /\ CostOk(ev, tp, tabOld)
 
 \* strictly, or (known finding) as the pinned code computes it
@@ -230,8 +254,8 @@ FitDiag ==
                    CASE nm = "box" -> ~BoxOk(Ev)
                      [] nm = "labels" -> ~LabelsOk(Ev.lab, tp)
                      [] nm = "query-labels" -> ~(LabelsOk(Ev.qlab, tq) /\ LabelsOk(Ev.qlab1, tq))
-                     [] nm = "transform" -> ~TransOk(Ev.tr, tp)
-                     [] nm = "query-transform" -> ~TransOk(Ev.qtr, tq)
+                     [] nm = "transform" -> ~TransOk(Ev.trp, tp)
+                     [] nm = "query-transform" -> ~TransOk(Ev.qtrp, tq)
                      [] nm = "cost" -> ~CostOk(Ev, tp, to)
                      [] nm = "report" -> ~ReportStrict(Ev, tp)}>>
 
@@ -245,16 +269,25 @@ Sq1e4(a) == LET h == a \div 1000
             IN 100 * h * h + (h * l) \div 5 + (l * l) \div 10000              \* a^2 / 10^4, at most 2 too small
 \* distance and half-width of its interval; units: l2 -> 10^-6, l1 / linf -> 10^-5
 \* (l2: (a +- 0.5)^2 / 10^4 = a^2 / 10^4 +- (a / 10^4 + ..), plus the rounding of Sq1e4)
+\* a^3 / 10^9 (a in 10^-5, result in 10^-6), at most ~5 too small; a <= 1 200 000
+Cube1e9(a) == LET h == a \div 1000
+                  l == a % 1000
+              IN h * h * h + (3 * h * h * l) \div 1000 + (3 * ((h * l) \div 1000) * l) \div 1000
 FD(x, cj) ==
   LET a == A4(x, cj) IN
-  CASE Mt = "l2"   -> KSum([d \in 1..TF |-> Sq1e4(a[d])])
-    [] Mt = "l1"   -> KSum(a)
+  CASE Mt \in {"l2", "lp2"} -> KSum([d \in 1..TF |-> Sq1e4(a[d])])
+    [] Mt \in {"l1", "lp1"} -> KSum(a)
     [] Mt = "linf" -> KMax(a)
+    [] Mt = "lp3"  -> KSum([d \in 1..TF |-> Cube1e9(a[d])])
+\* (lp3: (a +- 0.5)^3 / 10^9 = a^3 / 10^9 +- 1.5 a^2 / 10^9 .., a < 1000 (h + 1); plus the rounding of Cube1e9)
 FS(x, cj) ==
   LET a == A4(x, cj) IN
-  CASE Mt = "l2"   -> KSum([d \in 1..TF |-> a[d] \div 10000 + 3])
-    [] Mt = "l1"   -> TF
+  CASE Mt \in {"l2", "lp2"} -> KSum([d \in 1..TF |-> a[d] \div 10000 + 3])
+    [] Mt \in {"l1", "lp1"} -> TF
     [] Mt = "linf" -> 1
+    [] Mt = "lp3"  -> KSum([d \in 1..TF |-> (3 * (a[d] \div 1000 + 1) * (a[d] \div 1000 + 1)) \div 2000 + 8])
+\* distances are in 10^-6 for the metrics summing squares or cubes, in 10^-5 otherwise
+Fine == Mt \in {"l2", "lp2", "lp3"}
 \* per observation: interval ends of its minimal distance and the centroids that may be nearest
 NTab(PP, c4) ==
   [i \in 1..Len(PP) |->
@@ -263,8 +296,8 @@ NTab(PP, c4) ==
                                  IN <<dd - ss, dd + ss>>]
          mh == KMin([j \in 1..TK |-> iv[j][2]])
      IN [pt |-> PP[i], mlo |-> KMin([j \in 1..TK |-> iv[j][1]]), mhi |-> mh, adm |-> {j \in 1..TK : iv[j][1] <= mh}]]
-ObsU(v) == IF Mt = "l2" THEN 10 * v ELSE v          \* a logged value (10^-5) in the units of FD
-MU == IF Mt = "l2" THEN 10 * SlT ELSE SlT
+ObsU(v) == IF Fine THEN 10 * v ELSE v          \* a logged value (10^-5) in the units of FD
+MU == IF Fine THEN 10 * SlT ELSE SlT
 
 NearLabels(lab, nt) == \A i \in 1..Len(nt) : (lab[i] + 1) \in nt[i].adm
 NearTrans(tr, nt) ==
@@ -276,7 +309,9 @@ NearCounts(ev, nt) ==
        /\ ev.counts[j].i <= Cardinality({i \in 1..TN : j \in nt[i].adm})
 \* inertia * n in 10^-5 against the interval of the cost
 NearInertia(ev, nt) ==
-  LET dv == IF Mt = "l2" THEN 10 ELSE 1                       \* every term is brought to 10^-5 before summing
+  IF RootMetric THEN KAbs(ev.inertia * TN - SumTr(ev)) <= InSl
+  ELSE
+  LET dv == IF Fine THEN 10 ELSE 1                            \* every term is brought to 10^-5 before summing
       lo == KSum([i \in 1..TN |-> nt[i].mlo \div dv])        \* (rounded down / up), so that n terms fit 32 bits
       hi == KSum([i \in 1..TN |-> nt[i].mhi \div dv + 1])
   IN /\ lo - TN * SlT <= ev.inertia * TN
@@ -285,7 +320,7 @@ NearInertia(ev, nt) ==
 DescribesNoCounts(ev, np, nq) ==
   /\ NearLabels(ev.lab, np)
   /\ NearLabels(ev.qlab, nq) /\ NearLabels(ev.qlab1, nq)
-  /\ NearTrans(ev.tr, np) /\ NearTrans(ev.qtr, nq)
+  /\ NearTrans(ev.trp, np) /\ NearTrans(ev.qtrp, nq)
   /\ NearInertia(ev, np)
 
 \* shape, finiteness; initialised from the data => inside its bounding box
@@ -386,8 +421,8 @@ RestartDiag ==
                    "event-order", "best-of-restarts", "budget-monotone", "lloyd-step"} :
             CASE nm = "labels" -> ~NearLabels(Ev.lab, np)
               [] nm = "query-labels" -> ~(NearLabels(Ev.qlab, nq) /\ NearLabels(Ev.qlab1, nq))
-              [] nm = "transform" -> ~NearTrans(Ev.tr, np)
-              [] nm = "query-transform" -> ~NearTrans(Ev.qtr, nq)
+              [] nm = "transform" -> ~NearTrans(Ev.trp, np)
+              [] nm = "query-transform" -> ~NearTrans(Ev.qtrp, nq)
               [] nm = "inertia" -> ~NearInertia(Ev, np)
               [] nm = "counts" -> ~NearCounts(Ev, np)
               [] nm = "inertia-order" -> Ev.ev = "multi" /\ ikeyPrev # <<>> /\ ~KeyLe(Ev.ikey, ikeyPrev)
